@@ -126,6 +126,9 @@ Submit(api, src, op, n, b, p1) ==
     /\ Emit(CallEv(api, src, op, n, "nil"))
     /\ outq' = FlushOut(fs) /\ pool' = PutAll(p1, fs) /\ pend' = <<>> /\ ended' = FALSE
 
+\* opcode variety without a bigger alphabet: odd lengths (and "none") are text, even ones binary
+OpOf(n) == IF n % 2 = 0 THEN 2 ELSE 1
+
 Quiet == ~ended /\ outq = <<>> /\ bad = "" /\ ncalls < MaxCalls
 
 \* Write / AsyncWrite
@@ -133,25 +136,25 @@ WriteMsg(api, n) ==
   /\ Quiet
   /\ nid' = nid + 1 /\ ncalls' = ncalls + 1 /\ UNCHANGED pp
   /\ IF n > Max THEN
-       /\ Emit(CallEv(api, "msg", 2, n, "toobig")) /\ UNCHANGED <<st, pool, pend, outq, ended>>
+       /\ Emit(CallEv(api, "msg", OpOf(n), n, "toobig")) /\ UNCHANGED <<st, pool, pend, outq, ended>>
      ELSE IF st # "active" THEN
-       /\ Emit(CallEv(api, "msg", 2, n, "cancelled")) /\ UNCHANGED <<st, pool, pend, outq, ended>>
+       /\ Emit(CallEv(api, "msg", OpOf(n), n, "cancelled")) /\ UNCHANGED <<st, pool, pend, outq, ended>>
      ELSE LET b == Build("msg", n, pool) IN
-       IF b.panic THEN /\ Emit(CallEv(api, "msg", 2, n, "panic")) /\ ended' = TRUE
+       IF b.panic THEN /\ Emit(CallEv(api, "msg", OpOf(n), n, "panic")) /\ ended' = TRUE
                        /\ UNCHANGED <<st, pool, pend, outq>>
-       ELSE Submit(api, "msg", 2, n, b, b.pool) /\ UNCHANGED st
+       ELSE Submit(api, "msg", OpOf(n), n, b, b.pool) /\ UNCHANGED st
 
 \* WriteFrame / AsyncWriteFrame with a frame from AcquireFrame or NewFrame; n = -1: no SetPayload
 WriteFrm(api, src, n) ==
   /\ Quiet
   /\ nid' = nid + 1 /\ ncalls' = ncalls + 1 /\ UNCHANGED pp
   /\ LET b == Build(src, n, pool) IN
-     IF b.panic THEN /\ Emit(CallEv(api, src, 2, n, "panic")) /\ ended' = TRUE
+     IF b.panic THEN /\ Emit(CallEv(api, src, OpOf(n), n, "panic")) /\ ended' = TRUE
                      /\ UNCHANGED <<st, pool, pend, outq>>
      ELSE IF st # "active" THEN   \* the frame is released into the pool
-       /\ Emit(CallEv(api, src, 2, n, "cancelled"))
+       /\ Emit(CallEv(api, src, OpOf(n), n, "cancelled"))
        /\ pool' = Put(b.pool, b.slen) /\ UNCHANGED <<st, pend, outq, ended>>
-     ELSE Submit(api, src, 2, n, b, b.pool) /\ UNCHANGED st
+     ELSE Submit(api, src, OpOf(n), n, b, b.pool) /\ UNCHANGED st
 
 \* Close / AsyncClose with a payload of n bytes (status code + reason)
 CloseIt(api, n) ==
